@@ -42,7 +42,7 @@ def dec(fr: F, digits=30) -> D:
     return D(format(d, f".{digits}e")).normalize() if d != 0 else D(0)
 
 
-def gen_portfolio(rng, exact):
+def gen_portfolio(rng, exact, special=False):
     path = rng.choice(L.rp_files())
     rp = L.load_rp(path)
     names = L.usable_tokens(path)
@@ -84,6 +84,22 @@ def gen_portfolio(rng, exact):
             bd = D(base.numerator) / D(base.denominator)
             dl.append([n, str(bd if exact else D(format(bd, ".28e")))])
     case = Case(path, toks, supplies, dl, {n: "3" for n in list(toks)[:2]}, {})
+    if special:
+        k = rng.choice(["nocoll", "nosupply", "ltv0", "lt0", "price0", "price0-debt"])
+        health = k
+        if k == "nocoll":
+            case.supplies = [[n, b, False] for n, b, c in supplies]
+        elif k == "nosupply":
+            case.supplies = []
+        elif k == "ltv0":
+            for n in colls:
+                case.rp_over[n] = {"baseLTVasCollateral": "0"}
+        elif k == "lt0":
+            case.rp_over[colls[0]] = {"reserveLiquidationThreshold": "0", "baseLTVasCollateral": "0"}
+        elif k == "price0":
+            toks[rng.choice(colls)]["p"] = "0"
+        elif k == "price0-debt":
+            toks[rng.choice(list(toks))]["p"] = "0"
     return case, health, other[0]
 
 
@@ -251,9 +267,22 @@ def o_change(out, obs, tok, flag):
 
 
 # -------------------------------------------------------------------------------------------------------------- one case
+def dust_case(rng):
+    """a collateral withdrawal whose remainder is below MIN_TOKEN_VALUE and gets snapped to 0 after the health-factor check"""
+    import os
+    eps = D(rng.choice(["5E-19", "1E-19", "9.99999998E-19", "9.99999999E-19", "1E-18", "2E-18"]))
+    A = D(rng.randint(1, 50))
+    debt = eps * 1000 * D("0.825") * D(rng.choice(["1", "0.5", "1.0000001"]))
+    case = Case(os.path.join(L.RP_DIR, "demo.csv"), {"WETH": {"li": "1", "bi": "1", "p": "1000"}, "USDC": {"li": "1", "bi": "1", "p": "1"}},
+                [["WETH", str(A + eps), True]], [["USDC", str(debt)]], {"WETH": "3"}, {})
+    return case, {"op": "withdraw", "tok": "WETH", "amount": str(A)}, "dust", "coll", "dust:" + str(eps)
+
+
 def run_case(ctx: Ctx, rng, stream, reqs, forced=None):
+    if forced is None and stream == "special" and rng.random() < 0.25:
+        forced = dust_case(rng)
     if forced is None:
-        case, health, other = gen_portfolio(rng, stream == "boundary")
+        case, health, other = gen_portfolio(rng, stream == "boundary", stream == "special")
         rp = L.load_rp(case.rp_path)
         E = Exact({"supplies": [[n, D(b), c] for n, b, c in case.supplies], "debts": [[n, D(b)] for n, b in case.debts]},
                   {n: {"li": D(t["li"]), "bi": D(t["bi"]), "p": D(t["p"]), "lt": rp.loc[n].reserveLiquidationThreshold,
@@ -263,18 +292,18 @@ def run_case(ctx: Ctx, rng, stream, reqs, forced=None):
         if op in ("borrow", "max_borrow"):
             tok = rng.choice(list(case.toks))
             role = "debt" if tok in [d[0] for d in case.debts] else "new"
-            front = (E.weighted_ltv - E.total_debt) / F(D(case.toks[tok]["p"]))
+            front = (E.weighted_ltv - E.total_debt) / F(D(case.toks[tok]["p"])) if D(case.toks[tok]["p"]) != 0 else F(1)
             cls, amount = frontier_amounts(rng, front if front > 0 else F(1), None)
             if op == "borrow" and rng.random() < 0.08:
                 cls, amount = "none", None
             spec = {"op": op, "tok": tok, "amount": None if amount is None else str(amount)}
         elif op in ("withdraw", "max_withdraw"):
-            tok = rng.choice(sup_names + ([other] if rng.random() < 0.1 else []))
+            tok = rng.choice(sup_names + ([other] if rng.random() < 0.1 or not sup_names else []))
             s = [x for x in case.supplies if x[0] == tok]
             role = "unsupplied" if not s else ("coll" if s[0][2] else "noncoll")
             bal = E.sup_amount(tok) if s else F(1)
             front = bal
-            if s and s[0][2] and E.total_debt > 0:
+            if s and s[0][2] and E.total_debt > 0 and D(case.toks[tok]["p"]) != 0 and rp.loc[tok].reserveLiquidationThreshold != 0:
                 others = E.weighted_lt - bal * F(D(case.toks[tok]["p"])) * F(rp.loc[tok].reserveLiquidationThreshold)
                 kept = (E.total_debt - others) / F(rp.loc[tok].reserveLiquidationThreshold) / F(D(case.toks[tok]["p"]))
                 front = bal - max(kept, F(0))
@@ -283,7 +312,7 @@ def run_case(ctx: Ctx, rng, stream, reqs, forced=None):
                 cls, amount = "none", None
             spec = {"op": op, "tok": tok, "amount": None if amount is None else str(amount)}
         else:
-            tok = rng.choice(sup_names + ([other] if rng.random() < 0.1 else []))
+            tok = rng.choice(sup_names + ([other] if rng.random() < 0.1 or not sup_names else []))
             s = [x for x in case.supplies if x[0] == tok]
             role = "unsupplied" if not s else ("coll" if s[0][2] else "noncoll")
             flag = rng.random() < 0.35
@@ -417,7 +446,8 @@ def run(ctx: Ctx):
     n = ctx.scale(450, 15000)
     reqs = []
     for i in range(n):
-        stream = "random" if ctx.rng.random() < 0.7 else "boundary"
+        r = ctx.rng.random()
+        stream = "random" if r < 0.62 else ("boundary" if r < 0.87 else "special")
         run_case(ctx, ctx.rng, stream, reqs)
     ctx.impl_traces = len(reqs)
     if ctx.driver_ok:
